@@ -37,13 +37,15 @@ fn scenarios_for(prop: &str, tier: Tier) -> Vec<Box<dyn Scenario>> {
         }
         "C02" => {
             let mut v: Vec<Box<dyn Scenario>> = vec![
-                Box::new(CallsScenario { minors: [20, 20, 14, 20], depth: tier.pick(12, 24), max_calls: tier.pick(3, 4), serials: tier.pick(vec![0, 1], vec![0, 1, 2]) }),
-                Box::new(CallsScenario { minors: [14, 16, 20, 14], depth: tier.pick(12, 24), max_calls: tier.pick(3, 4), serials: vec![0, 1] }),
-                Box::new(CallsScenario { minors: [16, 19, 15, 20], depth: tier.pick(11, 20), max_calls: 3, serials: tier.pick(vec![0, 1], vec![0, 1, 2]) }),
+                Box::new(CallsScenario { minors: [20, 20, 14, 20], depth: tier.pick(12, 24), max_calls: tier.pick(3, 4), serials: tier.pick(vec![0, 1], vec![0, 1, 2]), crash_points: false }),
+                Box::new(CallsScenario { minors: [14, 16, 20, 14], depth: tier.pick(12, 24), max_calls: tier.pick(3, 4), serials: vec![0, 1], crash_points: false }),
+                Box::new(CallsScenario { minors: [16, 19, 15, 20], depth: tier.pick(11, 20), max_calls: 3, serials: tier.pick(vec![0, 1], vec![0, 1, 2]), crash_points: false }),
             ];
+            // dropped connection tasks (zombies: the broker notices on its next send to them)
+            v.push(Box::new(CallsScenario { minors: [20, 16, 20, 14], depth: tier.pick(9, 14), max_calls: 2, serials: vec![0, 1], crash_points: true }));
             if tier == Tier::Thorough {
-                v.push(Box::new(CallsScenario { minors: [19, 18, 20, 16], depth: 14, max_calls: 3, serials: vec![0, 1] }));
-                v.push(Box::new(CallsScenario { minors: [15, 20, 19, 18], depth: 14, max_calls: 3, serials: vec![0, 1] }));
+                v.push(Box::new(CallsScenario { minors: [19, 18, 20, 16], depth: 14, max_calls: 3, serials: vec![0, 1], crash_points: false }));
+                v.push(Box::new(CallsScenario { minors: [15, 20, 19, 18], depth: 14, max_calls: 3, serials: vec![0, 1], crash_points: false }));
             }
             v
         }
